@@ -275,4 +275,127 @@ macro "ff_sqrt_ok_body_script" M:term:max hM:term:max : tactic => `(tactic| (
 
 end FF
 
+/-! ## 3. limb lists -/
+
+section limbs
+open I3.GoBridge I3.GoBridge.FFLimb
+
+/-- every index of a four-element / one-element list (`[4]uint64`, `[1]uint64`) -/
+theorem inRange4_0 {α} (a b c d : α) : Go.inRange [a, b, c, d] (0 : Int) = true := rfl
+theorem inRange4_1 {α} (a b c d : α) : Go.inRange [a, b, c, d] (1 : Int) = true := rfl
+theorem inRange4_2 {α} (a b c d : α) : Go.inRange [a, b, c, d] (2 : Int) = true := rfl
+theorem inRange4_3 {α} (a b c d : α) : Go.inRange [a, b, c, d] (3 : Int) = true := rfl
+theorem inRange1_0 {α} (a : α) : Go.inRange [a] (0 : Int) = true := rfl
+
+/-- **the T2 kernel wrappers return a list of the package's length** (4 for ff, 1 for ffg), whatever lists they are
+    given (missing limbs are read as 0, extra limbs are ignored): by construction (`Go.Ext.of4`), the kernels
+    themselves are not unfolded. -/
+theorem ffl_mul_length (x y : List Nat) : (Go.Ext.ffl_mul x y).length = 4 := rfl
+theorem ffl_square_length (x : List Nat) : (Go.Ext.ffl_square x).length = 4 := rfl
+theorem ffl_add_length (x y : List Nat) : (Go.Ext.ffl_add x y).length = 4 := rfl
+theorem ffl_sub_length (x y : List Nat) : (Go.Ext.ffl_sub x y).length = 4 := rfl
+theorem ffl_neg_length (x : List Nat) : (Go.Ext.ffl_neg x).length = 4 := rfl
+theorem ffl_double_length (x : List Nat) : (Go.Ext.ffl_double x).length = 4 := rfl
+theorem ffl_fromMont_length (z : List Nat) : (Go.Ext.ffl_fromMont z).length = 4 := rfl
+theorem ffgl_mul_length (x y : List Nat) : (Go.Ext.ffgl_mul x y).length = 1 := rfl
+theorem ffgl_square_length (x : List Nat) : (Go.Ext.ffgl_square x).length = 1 := rfl
+theorem ffgl_add_length (x y : List Nat) : (Go.Ext.ffgl_add x y).length = 1 := rfl
+theorem ffgl_sub_length (x y : List Nat) : (Go.Ext.ffgl_sub x y).length = 1 := rfl
+theorem ffgl_neg_length (x : List Nat) : (Go.Ext.ffgl_neg x).length = 1 := rfl
+theorem ffgl_double_length (x : List Nat) : (Go.Ext.ffgl_double x).length = 1 := rfl
+theorem ffgl_fromMont_length (z : List Nat) : (Go.Ext.ffgl_fromMont z).length = 1 := rfl
+
+/-- `x[lo:hi]` on a list of known length -/
+theorem sliceOk_len {α} {l : List α} {n : Nat} (hl : l.length = n) {lo hi : Int}
+    (h : decide (0 ≤ lo ∧ lo ≤ hi ∧ hi ≤ (n : Int)) = true) : Go.sliceOk l lo hi = true := by
+  subst hl; exact h
+
+/-- `binary.BigEndian.PutUint64(b[lo:hi], v)` needs `hi - lo ≥ 8` -/
+theorem be64_fits (v : Nat) {k : Int} (hk : 8 ≤ k) : decide (Go.len (Go.be64 v) ≤ k) = true := by
+  rw [decide_eq_true_eq, len_eq, be64_length]; exact hk
+
+/-- a loop that runs without returning up to iteration `k`, which fails: the loop yields `some false` -/
+theorem forRangeRet_fails_at {σ : Type} (P : σ → Prop) {hi : Int} {f : Int → σ → Option Bool × σ} (k : Int)
+    (hk : k < hi) (hfail : ∀ s, P s → (f k s).1 = some false) :
+    ∀ (n : Nat) (lo : Int) (s : σ), (k - lo).toNat = n → lo ≤ k → P s →
+      (∀ i s, lo ≤ i → i < k → P s → (f i s).1 = none ∧ P (f i s).2) →
+      (Go.forRangeRet lo hi f s).1 = some false
+  | 0, lo, s, hn, hlo, hs, _ => by
+    have : lo = k := by omega
+    subst this
+    exact forRangeRet_first_fails rfl hk (hfail s hs)
+  | n + 1, lo, s, hn, hlo, hs, hstep => by
+    have hlt : lo < k := by omega
+    rw [forRangeRet_first (by omega : lo < hi)]
+    obtain ⟨h1, h2⟩ := hstep lo s (Int.le_refl _) hlt hs
+    rcases hf : f lo s with ⟨_ | r, s'⟩
+    · rw [hf] at h2
+      dsimp only
+      exact forRangeRet_fails_at P k hk hfail n (lo + 1) s' (by omega) (by omega) h2
+        (fun i s hi1 hi2 => hstep i s (by omega) hi2)
+    · rw [hf] at h1; cases h1
+
+/-- the 64-bit loop of `setBigInt` (`for i := 0; i < len(vBits); i++ { z[i] = vBits[i] }`) in a checked variant:
+    it falls through (destination length unchanged) when the words fit, and FAILS (index out of range at
+    `i = len(z)`) when they do not. -/
+theorem copyLoop_spec (b z : List Nat) {f : Int → List Nat → Option Bool × List Nat} {r : Option Bool × List Nat}
+    (hr : Go.forRangeRet 0 (Go.len b) f z = r)
+    (hf : ∀ i zs, f i zs =
+      Go.req (Go.inRange b i) (Go.req (Go.inRange zs i) ((none : Option Bool), Go.set zs i (Go.idx b i)))) :
+    (b.length ≤ z.length → r.1 = none ∧ r.2.length = z.length) ∧ (z.length < b.length → r.1 = some false) := by
+  constructor
+  · intro hle
+    exact forRangeRet_inv (fun zs : List Nat => zs.length = z.length) hr rfl (by
+      intro i zs hi1 hi2 hP
+      rw [len_eq] at hi2
+      rw [hf, req_of (inRange_of hi1 hi2), req_of (inRange_of hi1 (by rw [hP]; omega))]
+      exact ⟨rfl, by dsimp only; rw [length_set, hP]⟩)
+  · intro hlt
+    subst hr
+    refine forRangeRet_fails_at (fun zs : List Nat => zs.length = z.length) (z.length : Int)
+      (by rw [len_eq]; omega) ?_ z.length 0 z (by omega) (by omega) rfl ?_
+    · intro zs hP
+      have h1 : Go.inRange b (z.length : Int) = true := inRange_of (by omega) (by omega)
+      have h2 : Go.inRange zs (z.length : Int) = false := by
+        rw [← Bool.not_eq_true, inRange_iff, hP]; omega
+      rw [hf, req_of h1, req_false_loop h2]
+    · intro i zs hi1 hi2 hP
+      rw [hf, req_of (inRange_of hi1 (by omega)), req_of (inRange_of hi1 (by rw [hP]; omega))]
+      exact ⟨rfl, by dsimp only; rw [length_set, hP]⟩
+
+/-- what `SetBigInt` learns from its two comparisons before it calls `setBigInt` directly -/
+theorem cmp_range {v M : Int} (h0 : ¬ (Go.big.cmp v M == 0) = true)
+    (h1 : (Go.big.cmp v M != 1 && Go.big.cmp v default != -1) = true) : 0 ≤ v ∧ v < M := by
+  have hd : (default : Int) = 0 := rfl
+  rw [hd] at h1
+  unfold Go.big.cmp at h0 h1
+  by_cases a : v < M
+  · by_cases c : v < 0
+    · rw [if_pos a, if_pos c] at h1; simp at h1
+    · exact ⟨by omega, a⟩
+  · by_cases b : v = M
+    · rw [if_neg a, if_pos b] at h0; simp at h0
+    · rw [if_neg a, if_neg b] at h1; simp at h1
+
+/-- the words of `0 ≤ v < W^k` fit into `k` limbs -/
+theorem bits_length_le {v : Int} (h0 : 0 ≤ v) {k : Nat} (hv : v < ((W ^ k : Nat) : Int)) :
+    (Go.big.bits v).length ≤ k := by
+  obtain ⟨n, rfl⟩ := Int.eq_ofNat_of_zero_le h0
+  exact (bits_spec n).2.2 k (by exact_mod_cast hv)
+
+/-- **the number of 64-bit words of `v.Bits()`**: they fit into `k` limbs exactly when `|v| < 2^(64·k)` -/
+theorem bits_length_le_iff (v : Int) (k : Nat) : (Go.big.bits v).length ≤ k ↔ v.natAbs < W ^ k := by
+  have e : Go.big.bits v = Go.big.bits ((v.natAbs : Nat) : Int) := by
+    unfold Go.big.bits; rw [Int.natAbs_natCast]
+  obtain ⟨h1, h2, h3⟩ := bits_spec v.natAbs
+  rw [e]
+  constructor
+  · intro hle
+    have := val_lt_pow _ h2
+    rw [h1] at this
+    exact Nat.lt_of_lt_of_le this (Nat.pow_le_pow_right (by decide) hle)
+  · exact h3 k
+
+end limbs
+
 end I3.GoSafe
